@@ -73,6 +73,10 @@ namespace nmtools::utl
         {
             // TODO: assert/throw
             if (new_size <= Capacity) {
+                // new elements are value-initialized (the buffer may hold stale values from before a shrink)
+                for (size_type i=size_; i<new_size; i++) {
+                    buffer[(index_type)i] = T{};
+                }
                 size_ = new_size;
             }
         }
